@@ -2195,3 +2195,190 @@ Proof.
 Qed.
 
 End live.
+
+(** * 5. Store writes that fail (/repo f604e5b: nothing has changed when they do) *)
+Section fail.
+Variables (drift : Z) (tv : hdr -> hdr -> tvres) (tail : N).
+
+Notation astep := (astep drift tv).
+Notation xstep := (xstep drift tv).
+Notation xrun := (xrun drift tv).
+Notation Inv := (Inv tail).
+Notation wf_event := (wf_event tail).
+Notation Ainv := (Ainv tail).
+
+Lemma l_fail_frame c :
+  c_store (l_fail c) = c_store c /\ c_cache (l_fail c) = c_cache c /\ c_pend (l_fail c) = c_pend c /\
+  c_thr (l_fail c) = c_thr c /\ c_trig (l_fail c) = c_trig c /\ c_mu (l_fail c) = c_mu c /\
+  ss_to (c_state (l_fail c)) = ss_to (c_state c) /\
+  ((c_loop (l_fail c) = c_loop c /\ c_state (l_fail c) = c_state c) \/
+   (exists k hs, c_loop c = LApp0 k hs /\ c_loop (l_fail c) = LIdle /\ ss_err (c_state (l_fail c)) = Some SEStore)).
+Proof.
+  unfold l_fail. destruct (c_loop c) as [| |ph|p|from to|from to|k from to|k hs|k hs nh|k hs|oto lst|] eqn:Elp;
+    try (repeat split; try reflexivity; left; split; [exact Elp|reflexivity] || (left; split; reflexivity)).
+  all: try (repeat (split; [reflexivity|]); left; rewrite Elp; split; reflexivity).
+  unfold l_finish. cbn. repeat (split; [reflexivity|]). right. exists k, hs. repeat split; reflexivity.
+Qed.
+
+Lemma Inv_l_fail c : Inv c -> Inv (l_fail c).
+Proof.
+  intros HI. destruct (l_fail_frame c) as (Es & Ec & Ep & Et & _ & _ & _ & [[El _]|(k & hs & El0 & El & _)]).
+  - (* nothing happened *)
+    assert (E : l_fail c = c) by (unfold l_fail in *; destruct (c_loop c); try reflexivity; unfold l_finish in El; cbn in El; discriminate).
+    rewrite E. exact HI.
+  - assert (Hsub : forall y, In y (all_hdrs (l_fail c)) -> In y (all_hdrs c)).
+    { intros y. unfold all_hdrs. rewrite Es, Ec, Ep, Et, El, El0. cbn [loop_hdrs app]. intros H.
+      apply in_app_or in H. apply in_or_app. destruct H as [H|H]; [left; exact H|right].
+      destruct H as [H|H]; [left; exact H|right]. apply in_app_or in H. apply in_or_app. destruct H as [H|H]; [left; exact H|right].
+      apply in_or_app. right. exact H. }
+    destruct (frame_hts tail c (l_fail c) Es Et Ec) as [Hcl Hca]; [rewrite El, El0; reflexivity|exact HI|].
+    constructor.
+    + intros y Hy. apply (i_P _ c HI). apply Hsub. exact Hy.
+    + rewrite Ep. apply (i_rinv _ c HI).
+    + rewrite El. exact I.
+    + rewrite Es. apply (i_tail _ c HI).
+    + rewrite Es. apply (i_head _ c HI).
+    + exact Hcl.
+    + exact Hca.
+    + rewrite Et. apply (i_thr _ c HI).
+Qed.
+
+Lemma t_fail_cases i c :
+  t_fail i c = c \/
+  exists m res x rest, nth_error (c_thr c) i = Some (TRun m res x SL0 rest) /\ t_fail i c = set_thr i (TRun m res x SL3 rest) c.
+Proof.
+  unfold t_fail. destruct (nth_error (c_thr c) i) as [t|] eqn:En; [|left; reflexivity].
+  destruct t as [| | | | |m res x st rest|]; try (left; reflexivity). destruct st; try (left; reflexivity).
+  right. exists m, res, x, rest. split; reflexivity.
+Qed.
+
+Lemma Inv_t_fail i c : Inv c -> Inv (t_fail i c).
+Proof.
+  intros HI. destruct (t_fail_cases i c) as [->|(m & res & x & rest & En & ->)]; [exact HI|].
+  destruct (set_thr_frame i (TRun m res x SL3 rest) c) as (Es & Ec & Ep & El).
+  destruct (frame_thr tail c (set_thr i (TRun m res x SL3 rest) c) i _ (TRun m res x SL3 rest) En eq_refl eq_refl Es El Ec eq_refl HI) as (Hpc & Hcl & Hca).
+  constructor.
+  - intros y Hy. apply (i_P _ c HI). unfold all_hdrs in *. rewrite Es, Ec, Ep, El in Hy.
+    apply in_app_or in Hy. apply in_or_app. destruct Hy as [Hy|Hy]; [left; exact Hy|right].
+    destruct Hy as [Hy|Hy]; [left; exact Hy|right]. apply in_app_or in Hy. apply in_or_app. destruct Hy as [Hy|Hy]; [left; exact Hy|right].
+    apply in_app_or in Hy. apply in_or_app. destruct Hy as [Hy|Hy]; [left; exact Hy|right].
+    unfold set_thr in Hy. cbn in Hy. apply flat_upd_g in Hy. destruct Hy as [Hy|Hy]; [|exact Hy].
+    apply in_flat_map. exists (TRun m res x SL0 rest). split; [eapply nth_error_In; exact En|exact Hy].
+  - rewrite Ep. apply (i_rinv _ c HI).
+  - exact Hpc.
+  - rewrite Es. apply (i_tail _ c HI).
+  - rewrite Es. apply (i_head _ c HI).
+  - exact Hcl.
+  - exact Hca.
+  - unfold set_thr. cbn. apply thr_wf_upd; [apply (i_thr _ c HI)|exact I].
+Qed.
+
+Lemma Lh_same c c' : c_pend c' = c_pend c -> c_cache c' = c_cache c -> Lh c' = Lh c.
+Proof. intros Ep Ec. unfold Lh, local_head. rewrite Ep, Ec. reflexivity. Qed.
+
+Lemma Ainv_l_fail c : Ainv c -> Tinv c -> Ainv (l_fail c) /\ Tinv (l_fail c) /\ Lh (l_fail c) = Lh c /\ (forall n, covered n c -> covered n (l_fail c)).
+Proof.
+  intros [HI HS HQ [Hap1 Hap2] HT HL H5] HTi.
+  destruct (l_fail_frame c) as (Es & Ec & Ep & Et & Etr & Emu & Eto & Hcase).
+  pose proof (Lh_same c (l_fail c) Ep Ec) as ELh.
+  split; [|split; [unfold Tinv; rewrite Eto, ELh; exact HTi|split; [exact ELh|]]].
+  - constructor.
+    + apply Inv_l_fail; exact HI.
+    + constructor.
+      * rewrite Ep. apply (s_pos c HS).
+      * rewrite Et. apply (s_sl4 c HS).
+      * destruct Hcase as [[El _]|(k & hs & _ & El & _)]; rewrite El, Ep; [apply (s_fst c HS)|cbn; discriminate].
+      * rewrite Emu, Et. apply (s_mu c HS).
+    + destruct Hcase as [[El Est]|(k & hs & _ & El & Eerr)].
+      * apply (q_mono c); [exact El|exact Est|intros [H|H]; [left; rewrite Etr; exact H|right; rewrite Et; exact H]|rewrite Ep; intros p Hp; left; exact Hp|rewrite Ep; auto|exact HQ].
+      * unfold qpc. rewrite El. intros _. right. rewrite Eerr. discriminate.
+    + split; [|rewrite Et; exact Hap2]. destruct Hcase as [[El _]|(k & hs & _ & El & _)]; rewrite El; [exact Hap1|exact I].
+    + unfold Top. rewrite Es, Ec. exact HT.
+    + destruct Hcase as [[El _]|(k & hs & _ & El & _)]; [apply (Linv_same c); assumption|unfold Linv; rewrite El; exact I].
+    + intros i m res x rest Hi. rewrite Et in Hi. rewrite ELh. apply (H5 i m res x rest Hi).
+  - intros n [Hn|(y & Hy & Hn)]; [left; rewrite ELh; exact Hn|right; exists y; rewrite Et; split; assumption].
+Qed.
+
+Lemma Ainv_t_fail i c : Ainv c -> Tinv c -> Ainv (t_fail i c) /\ Tinv (t_fail i c) /\ Lh (t_fail i c) = Lh c /\ (forall n, covered n c -> covered n (t_fail i c)).
+Proof.
+  intros HA HTi. destruct (t_fail_cases i c) as [->|(m & res & x & rest & En & ->)]; [split; [exact HA|split; [exact HTi|split; [reflexivity|auto]]]|].
+  destruct HA as [HI HS HQ [Hap1 Hap2] HT HL H5].
+  set (c' := set_thr i (TRun m res x SL3 rest) c).
+  destruct (set_thr_frame i (TRun m res x SL3 rest) c) as (Es & Ec & Ep & El). fold c' in Es, Ec, Ep, El.
+  assert (Et : c_thr c' = upd_nth i (TRun m res x SL3 rest) (c_thr c)) by reflexivity.
+  assert (Hi : (i < length (c_thr c))%nat) by (apply nth_error_Some; congruence).
+  pose proof (Lh_same c c' Ep Ec) as ELh.
+  split; [|split; [unfold Tinv; rewrite ELh; exact HTi|split; [exact ELh|]]].
+  - constructor.
+    + pose proof (Inv_t_fail i c HI) as H. unfold t_fail in H. rewrite En in H. exact H.
+    + constructor.
+      * rewrite Ep. apply (s_pos c HS).
+      * intros j m0 res0 x0 st0 rest0 Hj Hst. rewrite Et in Hj. destruct (Nat.eq_dec j i) as [->|Hne].
+        -- rewrite (nth_upd_same _ _ _ Hi) in Hj. injection Hj as _ _ _ <- _. destruct Hst; discriminate.
+        -- rewrite (nth_upd_other _ _ _ _ Hne) in Hj. apply (s_sl4 c HS j m0 res0 x0 st0 rest0 Hj Hst).
+      * rewrite El, Ep. apply (s_fst c HS).
+      * intros Hm. destruct (s_mu c HS Hm) as (j & tj & Hj & Hh). destruct (Nat.eq_dec j i) as [->|Hne].
+        -- rewrite En in Hj. injection Hj as <-. exists i, (TRun m res x SL3 rest). split; [rewrite Et; apply nth_upd_same; exact Hi|exact Hh].
+        -- exists j, tj. split; [rewrite Et, nth_upd_other; [exact Hj|exact Hne]|exact Hh].
+    + apply (q_mono c); [exact El|reflexivity| |rewrite Ep; intros p Hp; left; exact Hp|rewrite Ep; auto|exact HQ].
+      intros [H|(j & m0 & res0 & x0 & rest0 & Hj)]; [left; exact H|right].
+      exists j, m0, res0, x0, rest0. rewrite Et. destruct (Nat.eq_dec j i) as [->|Hne]; [rewrite En in Hj; discriminate|rewrite nth_upd_other; assumption].
+    + split; [rewrite El; exact Hap1|rewrite Et; apply Forall_upd; [exact Hap2|exact I]].
+    + unfold Top. rewrite Es, Ec. exact HT.
+    + apply (Linv_same c); assumption.
+    + intros j m0 res0 x0 rest0 Hj. rewrite Et in Hj. destruct (Nat.eq_dec j i) as [->|Hne].
+      * rewrite (nth_upd_same _ _ _ Hi) in Hj. discriminate.
+      * rewrite (nth_upd_other _ _ _ _ Hne) in Hj. rewrite ELh. apply (H5 j m0 res0 x0 rest0 Hj).
+  - intros n [Hn|(y & Hy & Hn)]; [left; rewrite ELh; exact Hn|right; exists y; split; [|exact Hn]].
+    apply in_flat_map in Hy. destruct Hy as (tj & Htj & Hy). destruct (In_nth_error _ _ Htj) as [j Hj].
+    rewrite Et. destruct (Nat.eq_dec j i) as [->|Hne].
+    + rewrite En in Hj. injection Hj as <-. apply flat_upd_new; [exact Hi|exact Hy].
+    + apply in_flat_map. exists tj. split; [eapply nth_error_In; rewrite nth_upd_other; [exact Hj|exact Hne]|exact Hy].
+Qed.
+
+Definition wf_x (x : xevent) : Prop := match x with XE e => wf_event e | _ => True end.
+
+Theorem Ainv_xrun xs : forall c,
+  Ainv c -> Tinv c -> Forall wf_x xs ->
+  Ainv (xrun c xs) /\ Tinv (xrun c xs) /\ Lh c <= Lh (xrun c xs) /\ forall n, covered n c -> covered n (xrun c xs).
+Proof.
+  induction xs as [|x xs IH]; intros c HA HT Hw; [split; [exact HA|split; [exact HT|split; [cbn; lia|auto]]]|].
+  inversion Hw as [|? ? Hx Hr]; subst.
+  assert (Hone : Ainv (xstep c x) /\ Tinv (xstep c x) /\ Lh c <= Lh (xstep c x) /\ forall n, covered n c -> covered n (xstep c x)).
+  { destruct x as [e| |i]; cbn [Syncer.xstep].
+    - destruct (Ainv_astep drift tv tail c e HA Hx) as (HA' & Hk & Hcov). split; [exact HA'|]. split; [apply (Tinv_astep drift tv tail); assumption|].
+      split; [apply (Lh_mono c _ (i_rinv _ c (a_inv _ c HA)) (i_rinv _ _ (a_inv _ _ HA')) Hk)|exact Hcov].
+    - destruct (Ainv_l_fail c HA HT) as (H1 & H2 & H3 & H4). split; [exact H1|split; [exact H2|split; [rewrite H3; lia|exact H4]]].
+    - destruct (Ainv_t_fail i c HA HT) as (H1 & H2 & H3 & H4). split; [exact H1|split; [exact H2|split; [rewrite H3; lia|exact H4]]]. }
+  destruct Hone as (H1 & H2 & H3 & H4). destruct (IH (xstep c x) H1 H2 Hr) as (I1 & I2 & I3 & I4).
+  cbn [Syncer.xrun fold_left]. fold (xrun (xstep c x) xs). split; [exact I1|split; [exact I2|split; [lia|]]].
+  intros n Hn. apply I4. apply H4. exact Hn.
+Qed.
+
+(** from the start, every schedule, arbitrary inputs, store writes failing at will *)
+Theorem xrun_safe (a : hdr) (l : list hdr) (xs : list xevent) :
+  consec (a :: l) -> Forall hok (a :: l) -> h_height a = tail -> Forall wf_x xs ->
+  let c := xrun (init_cfg tail (a :: l)) xs in
+  Ainv c /\
+  (let s := c_store c in
+   rs_tail s = tail /\
+   (forall n, tail <= n <= rs_head s -> rs_has n (rs_log s) = true) /\
+   (forall n, rs_has n (rs_log s) = true <-> tail <= n <= rs_head s)) /\
+  (forall y, In y (rs_log (c_store c)) -> h_height y <= h_height (c_cache c)) /\
+  h_height (local_head (init_cfg tail (a :: l))) <= h_height (local_head c) /\
+  (all_quiet c -> h_height (c_cache c) = rs_head (c_store c) /\
+                  (ss_err (c_state c) = None -> ranges_all (c_pend c) = [] /\ local_head c = c_cache c)).
+Proof.
+  intros Hc Hk Ha Hw c. destruct (Ainv_init tail a l Hc Hk Ha) as [HA0 HT0].
+  destruct (Ainv_xrun xs _ HA0 HT0 Hw) as (HA & _ & Hm & _). fold c in HA, Hm.
+  pose proof (a_inv _ c HA) as HI.
+  split; [exact HA|]. split; [|split; [exact (a_top _ c HA)|split; [exact Hm|]]].
+  - destruct (store_contiguous tail c HI) as (E1 & E2 & _ & _ & E5 & _). split; [exact E1|]. split; [exact E2|].
+    apply E5. unfold reserved. destruct (a_apc _ c HA) as [Hl Ht].
+    assert (Hlr : lres (c_loop c) = []) by (destruct (c_loop c); try reflexivity; destruct Hl).
+    rewrite Hlr. cbn [app]. clear -Ht. induction Ht as [|t T Ht HT IH]; [reflexivity|]. cbn [flat_map]. rewrite IH.
+    destruct t as [| | | | |m res x st rest|]; try reflexivity. destruct st; try reflexivity; destruct Ht.
+  - intros Hq. split; [apply (quiet_shim_is_store tail c HA Hq)|]. intros He. apply (quiet_nothing_pending c (a_q _ c HA) Hq He).
+Qed.
+
+End fail.
